@@ -40,10 +40,17 @@ class CallTimeout(Exception):
     pass
 
 
-def timed(fn, secs=60):
+TIMEOUTS = [0]
+
+
+def timed(fn, secs=20):
     """run an implementation call under an alarm, so that a flood fill that no longer terminates
-    becomes an answer ('Err', OtherError via guarded) instead of a hung check"""
+    becomes an answer ('Err', OtherError via guarded) instead of a hung check; after two timeouts
+    the remaining calls get 2 s each (the run is a violation anyway)"""
+    secs = secs if TIMEOUTS[0] < 2 else 2
+
     def handler(signum, frame):
+        TIMEOUTS[0] += 1
         raise CallTimeout(f'no answer within {secs}s')
     old = signal.signal(signal.SIGALRM, handler)
     signal.alarm(secs)
